@@ -60,6 +60,32 @@ def _only_mod_differs(drv, sx, env, S):
     return not close(core.hexf(r["c"]), core.hexf(r["real"]), S)
 
 
+def _names(sx, acc):
+    if isinstance(sx, list):
+        if sx and sx[0] == "v":
+            acc.add(sx[1])
+        else:
+            for x in sx[1:]:
+                _names(x, acc)
+    return acc
+
+
+def c_skeleton(stmts):
+    """the statement skeleton (unpack / let / store) of a C function, in the form the extracted validators read"""
+    out = []
+    for kind, tgt, idx, rhs in stmts:
+        if kind == "unpack":
+            arr, i = idx
+            out.append([{"states": "us", "parameters": "up", "missing_variables": "um"}[arr], tgt, i])
+        elif kind == "let":
+            out.append(["let", tgt, sorted(_names(cparse.parse_expr(rhs), set()))])
+        elif kind == "store":
+            out.append(["store", idx, cparse.parse_expr(rhs)])
+        else:
+            raise cparse.CParseError("statement outside the skeleton: " + str(rhs)[:80])
+    return out
+
+
 def check_model(rep, drv, gen, rng, m, text, c, use_clang):
     lay = c.impl_layout()
     ss, pn = lay["sorted_states"], lay["params"]
@@ -82,6 +108,22 @@ def check_model(rep, drv, gen, rng, m, text, c, use_clang):
                                  stiff_states=ss[: max(1, n // 2)])
         pns = impl.exec_module(pycode)
         nfound = 0
+        # ---- the verified validators on the skeleton of the C functions (same ones as for the numpy module)
+        if family.mirror_issue(c, text) is None:
+            try:
+                vs = {"rhs": pipeline.validate(drv, "rhs", 0, n, [], c_skeleton(fns["rhs"])),
+                      "monitor_values": pipeline.validate(drv, "named", 0, len(lay["order"]), lay["order"], c_skeleton(fns["monitor_values"])),
+                      "explicit_euler": pipeline.validate(drv, "euler", 1, n, [], c_skeleton(fns["explicit_euler"]))}
+                bad = {k: v for k, v in vs.items() if not v.get("valid")}
+                if bad:
+                    rep.violation("a generated C function is rejected by the verified validator: " + str(bad)[:300],
+                                  {"kind": "validator", "relation": "Valid.valid_rhs / valid_named / valid_euler on the C skeleton", "text": text,
+                                   "rejected": bad, "failing_input": None}, failing_input_found=False)
+                else:
+                    rep.count("c_functions_validated", 3)
+            except cparse.CParseError as ex:
+                rep.violation("a statement of the generated C is outside the parsed fragment: " + str(ex),
+                              {"kind": "correspondence", "relation": "cparse", "text": text, "failing_input": None}, failing_input_found=False)
         # ---- init functions
         for kind, names, vals, fname in (("state", ss, stv, "init_state_values"), ("parameter", pn, pav, "init_parameter_values")):
             arr = cm.call_init(fname, len(names))
